@@ -5,20 +5,25 @@
      struct interface I0; struct interface I1: I0; struct interface I2
      struct S0: I0; struct S1: I1, I2; struct S2
      resource interface RI0 (= interface 3); resource interface RI1: RI0 (= interface 4)
-     resource R0: RI0 (= composite 3); resource R1: RI1 (= composite 4)                      *)
+     resource R0: RI0 (= composite 3); resource R1: RI1 (= composite 4)
+   and two contracts deployed with identical code at 0x1 and at 0x2 (distinct types, identical qualified names):
+     contract K { struct interface FI; struct F: FI; resource interface GI; resource G: GI; enum En }
+       0x1: F = composite 5, G = 7, En = 9, FI = interface 5, GI = 7;   0x2: F = 6, G = 8, En = 10, FI = 6, GI = 8
+     contract Outer { struct Inner }      0x1: composite 11;  0x2: composite 12                      *)
 From CV Require Export C09.Model.
 Import ListNotations.
 Open Scope Z_scope.
 
 Definition D0 : env := {|
-  comp_resource := fun c => Nat.leb 3 c;
+  comp_resource := fun c => match c with 3%nat | 4%nat | 7%nat | 8%nat => true | _ => false end;
   comp_conf := fun c =>
     match c with
     | 0%nat => [0%nat] | 1%nat => [1%nat; 0%nat; 2%nat] | 3%nat => [3%nat] | 4%nat => [4%nat; 3%nat]
+    | 5%nat => [5%nat] | 6%nat => [6%nat] | 7%nat => [7%nat] | 8%nat => [8%nat]
     | _ => []
     end;
-  comp_enum := fun _ => false;
-  iface_resource := fun i => Nat.leb 3 i;
+  comp_enum := fun c => match c with 9%nat | 10%nat => true | _ => false end;
+  iface_resource := fun i => match i with 3%nat | 4%nat | 7%nat | 8%nat => true | _ => false end;
   iface_supers := fun i => match i with 1%nat => [0%nat] | 4%nat => [3%nat] | _ => [] end;
 |}.
 
